@@ -37,10 +37,14 @@ REGISTRY = dict(
           "Extension: attribute lookup through any chain of VecEnvWrapper objects (unique holder -> value, several -> refused naming the hidden one, outermost wins); "
           "the per-env step of Model/OnPolicyCollect.v (C04/C06) is the projection of this model's sub_step. "
           "Tie: regenerated flag/guard fragments + correspondence on DummyVecEnv and SubprocVecEnv over all space kinds; wrapper getattr chains and indexed get_attr/set_attr/env_method/"
-          "env_is_wrapped calls on DummyVecEnv by correspondence."),
+          "env_is_wrapped calls on DummyVecEnv by correspondence. "
+          "Build round 5: observation plumbing (Model/ObsBuf.v: obs_space_info, keyed buf_obs, _save_obs, _obs_from_buf, _stack_obs) for plain/Dict/Tuple spaces - _save_obs(i, o) writes "
+          "row i of every key only; the batch read after saving all envs is the per-key stack of the envs' own observations in the container of the space kind and equals _stack_obs; "
+          "a returned batch is the buffer version of the call (later writes do not change it); _get_indices / _get_target_envs: indexed calls touch exactly those positions in that order. "
+          "Tie: fragment group obsbuf (key / index dispatch, loop sources, subscripts, returned expressions) + correspondence stream D."),
     note=("Trusted: Coq 8.16.1 kernel (vm_compute, no native_compute), translate/py2coq.py + specs/vecenv.py, harness/c01.py + scripted_envs.py, Python/numpy/gymnasium/multiprocessing. "
-          "Tied by correspondence only (not translated): the loops over env_idx / remotes, _save_obs/_obs_from_buf/_stack_obs/dict_to_obs per-kind plumbing, "
-          "seed()'s list comprehension, the `if options` guard of reset(). Quick tier runs SubprocVecEnv with start method fork only (forkserver/spawn in thorough). "
+          "Tied by correspondence only (not translated): the loops over env_idx / remotes, numpy's row assignment / np.stack / deepcopy inside the plumbing (the dispatch around them is regenerated, "
+          "group obsbuf, as guards and integer codes of the looped / subscripted / returned expressions), the `if options` guard of reset(). Quick tier runs SubprocVecEnv with start method fork only (forkserver/spawn in thorough). "
           "Findings: none for C01 (the reward-dtype finding F10, signature reward-dtype-float32-vs-float64, belongs to C02). All C01 theorems are closed under the global context (no axioms)."),
     technique="machine-checked proof in Coq (induction over op lists, generic sub-environment) + regenerated-fragment interface lemmas + differential correspondence + statement oracle",
 )
@@ -588,6 +592,10 @@ def run_dummy_calls_stream(chk, n_cases):
     stats = {"cases": len(cases), "replies": 0}
     for c, tr, v in zip(cases, traces, vals):
         ml = c02.model_log(v)
+        if hasattr(c02, "public_log"):
+            # build round 5 of C02 added has_attr calls: the model logs one ResBool per sub-environment, the public call returns their
+            # conjunction; c02.public_log folds the model's log the way c02's own comparison does
+            ml = c02.public_log(c, ml)
         stats["replies"] += len(ml)
         if tr != ml:
             j = next((j for j, (a, b) in enumerate(zip(tr, ml)) if a != b), min(len(tr), len(ml)))
@@ -742,6 +750,252 @@ def run_envutil_stream(chk, n_cases):
     return stats
 
 
+# ---------------------------------------------------------------- extension D (build round 5): observation plumbing and index dispatch
+
+OBSBUF_HEADER = """From Coq Require Import List ZArith Bool.
+From SB3V Require Import Model.ObsBuf.
+Import ListNotations.
+"""
+KEY_IDS = {"vec": 11, "d": 12, "img": 13, "observation": 21, "achieved_goal": 22, "desired_goal": 23}
+
+
+def _ob_layout(space):
+    """(kind, [(python key, model key id, subspace)]) of an observation space, keys in the space's own order"""
+    from gymnasium import spaces
+
+    if isinstance(space, spaces.Dict):
+        return "dict", [(k, KEY_IDS[k], s) for k, s in space.spaces.items()]
+    if isinstance(space, spaces.Tuple):
+        return "tuple", [(i, i, s) for i, s in enumerate(space.spaces)]
+    return "plain", [(None, None, space)]
+
+
+def _ob_make(kind, layout, tags):
+    from harness import scripted_envs as se
+
+    parts = [se.encode(s, t) for (_, _, s), t in zip(layout, tags)]
+    if kind == "dict":
+        return {k: p for (k, _, _), p in zip(layout, parts)}
+    return tuple(parts) if kind == "tuple" else parts[0]
+
+
+def _ob_decode_batch(kind, layout, batch, n):
+    """canonical value of a returned batch: [container kind, [[key id, [tag per env]], ...] sorted by key id]"""
+    import numpy as np
+
+    from harness import scripted_envs as se
+
+    def rows(sub, arr):
+        out = []
+        for i in range(n):
+            try:
+                out.append(se.decode(sub, arr[i]))
+            except Exception as e:  # noqa: BLE001  (mixed cells / wrong shape)
+                out.append(f"MIXED:{type(e).__name__}")
+        return out
+
+    cont = "dict" if isinstance(batch, dict) else ("tuple" if isinstance(batch, tuple) else ("plain" if isinstance(batch, np.ndarray) else type(batch).__name__))
+    if cont != kind:
+        return [cont, []]
+    if kind == "dict":
+        if set(batch.keys()) != {k for k, _, _ in layout}:
+            return ["dict-keys:" + ",".join(sorted(map(str, batch.keys()))), []]
+        return [cont, sorted([kid, rows(s, batch[k])] for k, kid, s in layout)]
+    if kind == "tuple":
+        if len(batch) != len(layout):
+            return [f"tuple-len:{len(batch)}", []]
+        return [cont, [[kid, rows(s, batch[k])] for k, kid, s in layout]]
+    return [cont, [[-1, rows(layout[0][2], batch)]]]
+
+
+def _ob_model_batch(v):
+    if v[0] == "BArr":
+        return ["plain", [[-1, list(v[1])]]]
+    if v[0] == "BDict":
+        return ["dict", sorted([kv[0], list(kv[1])] for kv in v[1])]
+    return ["tuple", [[i, list(r)] for i, r in enumerate(v[1])]]
+
+
+def _ob_coq_obs(kind, layout, tags):
+    from harness.common import coq_Z
+
+    if kind == "dict":
+        return "(ODict [" + "; ".join(f"({coq_Z(kid)}, {coq_Z(t)})" for (_, kid, _), t in zip(layout, tags)) + "])"
+    if kind == "tuple":
+        return "(OTup [" + "; ".join(coq_Z(t) for t in tags) + "])"
+    return f"(OArr {coq_Z(tags[0])})"
+
+
+def _ob_coq_space(kind, layout):
+    from harness.common import coq_nat, coq_Z
+
+    if kind == "dict":
+        return "(SDict [" + "; ".join(coq_Z(kid) for _, kid, _ in layout) + "])"
+    return f"(STuple {coq_nat(len(layout))})" if kind == "tuple" else "SPlain"
+
+
+def _coq_indices(ix):
+    from harness.common import coq_list, coq_Z
+
+    return "INone" if ix is None else (f"(IInt {coq_Z(ix)})" if isinstance(ix, int) else f"(IList {coq_list(list(ix), coq_Z)})")
+
+
+def gen_obsbuf_case(rng, idx):
+    n = rng.randint(1, 5)
+    kind = OBS_KINDS[idx % len(OBS_KINDS)]
+    width = {"dict": 3, "goal": 3, "tuple": 2}.get(kind, 1)
+    tags = lambda: [rng.randint(1, 250) for _ in range(width)]  # noqa: E731  (a different tag per key: a key mix-up is visible)
+    hist = []
+    for _ in range(rng.randint(3, 14)):
+        hist.append(["snap"] if rng.random() < 0.3 else ["save", rng.randrange(n), tags()])
+    hist.append(["snap"])
+    final = [tags() for _ in range(n)]
+    queries = []
+    for _ in range(4):
+        u = rng.random()
+        if u < 0.2:
+            queries.append(None)
+        elif u < 0.5:
+            queries.append(rng.randint(-n - 1, n))                      # negative and out-of-range ints included
+        else:
+            queries.append([rng.randint(-n, n - 1) if rng.random() < 0.9 else rng.choice([n, -n - 1]) for _ in range(rng.randint(0, 4))])
+    return {"obs_kind": kind, "n": n, "history": hist, "final": final, "queries": queries, "id": idx}
+
+
+def run_obsbuf_impl(case):
+    """drive the REAL _save_obs / _obs_from_buf / _stack_obs / obs_space_info / _get_target_envs"""
+    from harness import scripted_envs as se
+    from stable_baselines3.common.vec_env import DummyVecEnv
+    from stable_baselines3.common.vec_env.subproc_vec_env import _stack_obs
+    from stable_baselines3.common.vec_env.util import obs_space_info
+
+    script = {"episodes": [{"reset_tag": 1, "reset_info": 0, "steps": [{"tag": 2, "r4": 0, "term": True, "trunc": False, "info": 0}]}]}
+    n = case["n"]
+    venv = DummyVecEnv([se.make_env_fn(script, obs_kind=case["obs_kind"], act_kind="discrete", env_id=i) for i in range(n)])
+    try:
+        space = venv.observation_space
+        kind, layout = _ob_layout(space)
+        ids = {k: kid for k, kid, _ in layout}
+        keys = [ids.get(k, f"?{k}") for k in obs_space_info(space)[0]]
+        kept, snaps = [], []
+        for op in case["history"]:
+            if op[0] == "save":
+                venv._save_obs(op[1], _ob_make(kind, layout, op[2]))
+            else:
+                b = venv._obs_from_buf()
+                kept.append(b)
+                snaps.append(_ob_decode_batch(kind, layout, b, n))
+        obs_list = [_ob_make(kind, layout, t) for t in case["final"]]
+        for i, o in enumerate(obs_list):
+            venv._save_obs(i, o)
+        dummy_final = _ob_decode_batch(kind, layout, venv._obs_from_buf(), n)
+        subproc_final = _ob_decode_batch(kind, layout, _stack_obs(obs_list, space), n)
+        subproc_tuple_in = _ob_decode_batch(kind, layout, _stack_obs(tuple(obs_list), space), n)      # a tuple of observations is accepted too
+        later = [_ob_decode_batch(kind, layout, b, n) for b in kept]          # the retained batches, re-read after all later writes
+        targets = []
+        for q in case["queries"]:
+            try:
+                got = venv._get_target_envs(q)
+                targets.append([next(j for j, e in enumerate(venv.envs) if e is g) for g in got])
+            except IndexError:
+                targets.append(None)
+    finally:
+        venv.close()
+    return {"kind": kind, "layout": [[kid, None] for _, kid, _ in layout], "keys": keys, "snaps": snaps, "later": later, "dummy_final": dummy_final,
+            "subproc_final": subproc_final, "subproc_tuple_in": subproc_tuple_in, "targets": targets}
+
+
+def obsbuf_oracle(case, kind, key_ids):
+    """plain Python from the property text: every sub-environment owns row i of every key; a returned batch is the stack of each
+    sub-environment's latest own observation (zeros before its first write) and never changes afterwards"""
+    n = case["n"]
+    rows = {kid: [0] * n for kid in key_ids}
+    snaps = []
+    canon = lambda: [kind, sorted([(-1 if kid is None else kid), list(r)] for kid, r in rows.items())]  # noqa: E731
+    for op in case["history"]:
+        if op[0] == "save":
+            for kid, t in zip(key_ids, op[2]):
+                rows[kid][op[1]] = t
+        else:
+            snaps.append(canon())
+    final = [kind, sorted([(-1 if kid is None else kid), [t[j] for t in case["final"]]] for j, kid in enumerate(key_ids))]
+    targets = []
+    for q in case["queries"]:
+        idx = list(range(n)) if q is None else ([q] if isinstance(q, int) else list(q))
+        targets.append(None if any(not -n <= i < n for i in idx) else [i % n for i in idx])
+    return {"snaps": snaps, "final": final, "targets": targets}
+
+
+def obsbuf_exprs(case, kind, layout):
+    from harness.common import coq_nat
+
+    sp = _ob_coq_space(kind, layout)
+    ops = "; ".join("WSnap" if op[0] == "snap" else f"WSave {coq_nat(op[1])} {_ob_coq_obs(kind, layout, op[2])}" for op in case["history"])
+    obs_list = "[" + "; ".join(_ob_coq_obs(kind, layout, t) for t in case["final"]) + "]"
+    n = coq_nat(case["n"])
+    return [f"(obs_space_info {sp}, snd (wrun_init 0%Z {sp} {n} [{ops}]), "
+            f"obs_from_buf {sp} (save_all 0%Z (obs_space_info {sp}) (fst (wrun_init 0%Z {sp} {n} [{ops}])) 0 {obs_list}), stack_obs 0%Z {sp} {obs_list}, "
+            f"[{'; '.join(f'target_envs {n} {_coq_indices(q)}' for q in case['queries'])}])"]
+
+
+def run_obsbuf_stream(chk, n_cases):
+    from harness import scripted_envs as se
+
+    cases = [gen_obsbuf_case(chk.rng, k) for k in range(n_cases)]
+    # fixed boundary cases first: a write to every row of a Dict space then repeated / negative indices
+    cases.insert(0, {"obs_kind": "dict", "n": 3, "history": [["save", 1, [5, 6, 7]], ["snap"], ["save", 0, [8, 9, 10]], ["save", 1, [11, 12, 13]], ["snap"]],
+                     "final": [[1, 2, 3], [4, 5, 6], [7, 8, 9]], "queries": [None, -1, [2, 0, 0], [3]], "id": -1})
+    cases.insert(1, {"obs_kind": "tuple", "n": 2, "history": [["save", 0, [5, 6]], ["snap"], ["save", 0, [7, 8]], ["snap"]],
+                     "final": [[1, 2], [3, 4]], "queries": [-2, [-1, -1], 2, []], "id": -2})
+    stats = {"cases": len(cases), "writes": 0, "batches": 0, "index_queries": 0, "index_errors": 0, "negative_or_repeated": 0, "kinds": {}}
+    impls, exprs = [], []
+    for c in cases:
+        try:
+            im = run_obsbuf_impl(c)
+        except Exception as e:  # noqa: BLE001
+            chk.violation(f"oracle-obs-plumbing-crash-{c['obs_kind']}", f"_save_obs/_obs_from_buf/_stack_obs raised {type(e).__name__}: {e}", {"obsbuf_case": c}, found_input=True)
+            return stats
+        impls.append(im)
+        kind, layout = _ob_layout(se.make_obs_space(c["obs_kind"]))
+        exprs += obsbuf_exprs(c, kind, layout)
+    vals = common.coq_eval_many(f"C01d_{os.getpid()}", OBSBUF_HEADER, exprs, shard=80, procs=4)
+    _rm_cases(f"C01d_{os.getpid()}")
+    for c, im, v in zip(cases, impls, vals):
+        kind = im["kind"]
+        key_ids = [kid for kid, _ in im["layout"]]
+        orc = obsbuf_oracle(c, kind, key_ids)
+        stats["writes"] += sum(1 for op in c["history"] if op[0] == "save") + c["n"]
+        stats["batches"] += len(im["snaps"]) + 3
+        stats["index_queries"] += len(c["queries"])
+        stats["index_errors"] += sum(1 for t in im["targets"] if t is None)
+        stats["negative_or_repeated"] += sum(1 for q in c["queries"] if (isinstance(q, int) and q < 0) or (isinstance(q, list) and (len(set(q)) < len(q) or any(i < 0 for i in q))))
+        stats["kinds"][c["obs_kind"]] = stats["kinds"].get(c["obs_kind"], 0) + 1
+        rep = {"obsbuf_case": c, "impl": im, "expected": orc}
+        checks = [
+            ("oracle-obs-buffer-row", im["snaps"], orc["snaps"], "batches returned by _obs_from_buf during the write history"),
+            ("oracle-returned-batch-changed-by-later-write", im["later"], orc["snaps"], "the same batch objects re-read after the later _save_obs calls"),
+            ("oracle-obs-from-buf-not-stack-of-own-observations", im["dummy_final"], orc["final"], "DummyVecEnv: _obs_from_buf after saving every env"),
+            ("oracle-stack-obs-not-stack-of-own-observations", im["subproc_final"], orc["final"], "SubprocVecEnv: _stack_obs(list of the same observations)"),
+            ("oracle-stack-obs-not-stack-of-own-observations", im["subproc_tuple_in"], orc["final"], "SubprocVecEnv: _stack_obs(tuple of the same observations)"),
+            ("oracle-indexed-call-targets", im["targets"], orc["targets"], f"_get_target_envs for indices {c['queries']} (positions in envs; None = IndexError)"),
+        ]
+        for sig, got, want, what in checks:
+            if got != want:
+                chk.violation(f"{sig}-{c['obs_kind']}" if "targets" not in sig else sig, f"{what}: real {got} expected {want} (n_envs {c['n']}, history {c['history']})", rep, found_input=True)
+                return stats
+        m_keys = [(-1 if _opt(k) is None else _opt(k)) for k in v[0]]
+        model = {"keys": m_keys, "snaps": [_ob_model_batch(b) for b in v[1]], "dummy_final": _ob_model_batch(v[2]), "subproc_final": _ob_model_batch(v[3]),
+                 "targets": [(list(_opt(t)) if _opt(t) is not None else None) for t in v[4]]}
+        real = {"keys": [(-1 if k is None else k) for k in im["keys"]], "snaps": im["snaps"], "dummy_final": im["dummy_final"], "subproc_final": im["subproc_final"],
+                "targets": im["targets"]}
+        if real != model:
+            part = next(k for k in real if real[k] != model[k])
+            chk.violation(f"model-correspondence-obsbuf-{part}", f"{part}: real {real[part]} model {model[part]}",
+                          {"obsbuf_case": c, "correspondence": "harness/c01.py run_obsbuf_stream vs Model.ObsBuf"}, found_input=False)
+            return stats
+    return stats
+
+
 # ---------------------------------------------------------------- driver
 
 def valid_ops(ops):
@@ -780,7 +1034,7 @@ def load_corpus():
 
 
 def main():
-    chk = Check("C01", groups=["vecenv", "seed"])
+    chk = Check("C01", groups=["vecenv", "seed", "obsbuf"])
     chk.build_props()
     from harness.c01_branchcov import BranchCov, summarize
 
@@ -841,10 +1095,12 @@ def main():
     attr_stats = run_attr_stream(chk, n_attr) if not chk.violations else {}
     calls_stats = run_dummy_calls_stream(chk, n_calls) if not chk.violations else {}
     envutil_stats = run_envutil_stream(chk, 40 if quick else 400) if not chk.violations else {}
+    obsbuf_stats = run_obsbuf_stream(chk, 200 if quick else 3000) if not chk.violations else {}
+    chk.notes["obs_plumbing_and_indices_stream"] = obsbuf_stats
     chk.notes["env_util_stream"] = envutil_stats
     chk.notes["wrapper_getattr_stream"] = attr_stats
     chk.notes["dummy_indexed_calls_stream"] = calls_stats
-    extra = attr_stats.get("cases", 0) + calls_stats.get("cases", 0) + envutil_stats.get("make_vec_env", 0) + envutil_stats.get("unwrap", 0)
+    extra = attr_stats.get("cases", 0) + calls_stats.get("cases", 0) + envutil_stats.get("make_vec_env", 0) + envutil_stats.get("unwrap", 0) + obsbuf_stats.get("cases", 0)
     chk.coverage["evaluations"] = len(cases) + extra
     chk.coverage["traces_validated_against_impl"] = len(cases) + extra
     chk.coverage["distinct_nontrivial"] = len(distinct)
@@ -857,7 +1113,8 @@ def main():
     chk.add_samples([{k: cases[i][k] for k in ("obs_kind", "act_kind", "n", "backend", "ops")} for i in (n_corpus, len(cases) - 1) if i < len(cases)])
     chk.assumptions += [
         "the scripted sub-environment (harness/scripted_envs.py) implements the script semantics of Model/Script.v; a step before the first reset is outside the contract and not generated",
-        "per-kind observation plumbing (_save_obs, _obs_from_buf, _stack_obs, dict_to_obs), loops over sub-environments and seed()/set_options() are tied to the model by correspondence only",
+        "observation plumbing: the key dispatch of _save_obs / dict_to_obs / obs_space_info / _stack_obs and the index dispatch of _get_indices are regenerated fragments (group obsbuf); numpy row assignment, np.stack and deepcopy are modelled as list update / map / identity on values and tied by correspondence (stream D: random write histories per space kind, distinct tag per key); loops over sub-environments and seed()/set_options() by correspondence",
+        "Dict observation spaces have pairwise distinct keys (wf_space); an observation lacking a key of the space is outside the model (the code raises KeyError)",
         "rewards are multiples of 1/4 (exact in float32 and float64); reward dtype is not compared (see C02 finding reward-dtype-float32-vs-float64)",
     ]
     if cov:
@@ -868,6 +1125,14 @@ def main():
 
 def replay(path):
     d = json.load(open(path))
+    if "obsbuf_case" in d["replay"]:          # stream D: observation plumbing / index dispatch
+        c = d["replay"]["obsbuf_case"]
+        im = run_obsbuf_impl(c)
+        orc = obsbuf_oracle(c, im["kind"], [kid for kid, _ in im["layout"]])
+        bad = {k: [im[a], orc[b]] for k, a, b in (("batches", "snaps", "snaps"), ("retained", "later", "snaps"), ("dummy_final", "dummy_final", "final"),
+                                                   ("stack_obs", "subproc_final", "final"), ("targets", "targets", "targets")) if im[a] != orc[b]}
+        print(json.dumps({"oracle_problems (real, expected)": bad}, indent=1, default=str))
+        return 1 if bad else 0
     case = d["replay"]["case"]
     im = run_impl(case)
     probs = oracle(case, im)
